@@ -2,6 +2,7 @@
 use crate::*;
 use curve25519_dalek::ristretto::CompressedRistretto;
 use curve25519_dalek::traits::{Identity, MultiscalarMul, VartimeMultiscalarMul};
+#[cfg(feature = "ed")]
 use ed25519_dalek::{Signature, Signer, SigningKey, Verifier, VerifyingKey};
 use sha2::{Digest, Sha512};
 use subtle::ConstantTimeEq;
@@ -311,6 +312,7 @@ pub fn run(op: &str, e: &Value, ctx: &mut Ctx) -> Result<Value, String> {
             let b = bytes_of(inp(e, 0)?)?;
             set_ris(ctx, e, RistrettoPoint::random(&mut ScriptRng(b, 0)))
         }
+        #[cfg(feature = "ed")]
         "rng.signing_key" => {
             let b = bytes_of(inp(e, 0)?)?;
             let k = SigningKey::generate(&mut ScriptRng(b, 0));
@@ -348,6 +350,7 @@ pub fn run(op: &str, e: &Value, ctx: &mut Ctx) -> Result<Value, String> {
             Ok(json!({"rs": r.iter().map(|c| jbytes(c.as_bytes())).collect::<Vec<_>>()}))
         }
         // ================= Ed25519 ====================================================
+        #[cfg(feature = "ed")]
         "sig.keygen" => {
             // seed -> signing key; every view of the key pair
             let seed = arr32(inp(e, 0)?)?;
@@ -368,11 +371,13 @@ pub fn run(op: &str, e: &Value, ctx: &mut Ctx) -> Result<Value, String> {
                       "scalar_bytes": jbytes(&sk.to_scalar_bytes()), "scalar": jbytes(&sk.to_scalar().to_bytes()),
                       "mont": jbytes(vk.to_montgomery().as_bytes()), "weak": vk.is_weak()}))
         }
+        #[cfg(feature = "ed")]
         "sig.from_keypair_bytes" => {
             let b = arr64(inp(e, 0)?)?;
             let r = SigningKey::from_keypair_bytes(&b);
             Ok(json!({"ok": res_ok(&r), "pk": r.map(|k| jbytes(k.verifying_key().as_bytes())).unwrap_or(json!([]))}))
         }
+        #[cfg(feature = "ed")]
         "sig.sk_from_slice" => {
             let b = bytes_of(inp(e, 0)?)?;
             let r = SigningKey::try_from(&b[..]);
@@ -380,6 +385,7 @@ pub fn run(op: &str, e: &Value, ctx: &mut Ctx) -> Result<Value, String> {
             let x2 = ed25519_dalek::hazmat::ExpandedSecretKey::try_from(&b[..]);
             Ok(json!({"ok": res_ok(&r), "esk_ok": res_ok(&x), "esk_ok2": res_ok(&x2)}))
         }
+        #[cfg(feature = "ed")]
         "sig.sign" => {
             // in = [seed, message]; pure Ed25519 through every signing path
             let seed = arr32(inp(e, 0)?)?;
@@ -394,6 +400,7 @@ pub fn run(op: &str, e: &Value, ctx: &mut Ctx) -> Result<Value, String> {
             }
             Ok(json!({"sig": jbytes(&s1.to_bytes()), "pk": jbytes(sk.verifying_key().as_bytes())}))
         }
+        #[cfg(feature = "ed")]
         "sig.sign_expanded" => {
             // in = [64-byte expanded key, message]: hazmat signing with an arbitrary expanded key
             let h = arr64(inp(e, 0)?)?;
@@ -403,6 +410,7 @@ pub fn run(op: &str, e: &Value, ctx: &mut Ctx) -> Result<Value, String> {
             let s = ed25519_dalek::hazmat::raw_sign::<Sha512>(&esk, &m, &vk);
             Ok(json!({"sig": jbytes(&s.to_bytes()), "pk": jbytes(vk.as_bytes())}))
         }
+        #[cfg(feature = "ed")]
         "sig.sign_prehashed" => {
             // in = [seed, message, context]; "noctx": true passes None
             let seed = arr32(inp(e, 0)?)?;
@@ -430,6 +438,7 @@ pub fn run(op: &str, e: &Value, ctx: &mut Ctx) -> Result<Value, String> {
             Ok(json!({"ok": r1.is_ok(), "sig": r1.map(|s| jbytes(&s.to_bytes())).unwrap_or(json!([])), "ctx_ok": ctx_ok, "sig_ctx": s3,
                       "pk": jbytes(sk.verifying_key().as_bytes())}))
         }
+        #[cfg(feature = "ed")]
         "sig.verify" => {
             // in = [public key bytes, message, signature bytes(64), context]; every verification variant
             let pk = arr32(inp(e, 0)?)?;
@@ -482,6 +491,7 @@ pub fn run(op: &str, e: &Value, ctx: &mut Ctx) -> Result<Value, String> {
             }
             Ok(o)
         }
+        #[cfg(feature = "ed")]
         "sig.verify_batch" => {
             // entries: [[pk, msg, sig], ...]; optional "lens": [n_msgs, n_sigs, n_keys] to truncate the slices
             let ents = e["entries"].as_array().ok_or("entries")?;
